@@ -16,7 +16,9 @@ Normative(ev) ==
     ELSE "ok"
   ELSE
     IF HasFail(ev.sched) THEN (IF ev.err = "nil" THEN "fault-not-reported" ELSE "ok")
-    ELSE IF <<ev.out[1], ev.err>> # <<BlocksOf(ev.len, ev.b).n, BlocksOf(ev.len, ev.b).err>> THEN "blocks-depend-on-schedule"
+    \* the number of complete blocks, and whether the reader ends with an error (a cut block) or not: which error value or
+    \* message it is belongs to the implementation layer (Drift), not to the statement
+    ELSE IF <<ev.out[1], ev.err = "nil">> # <<BlocksOf(ev.len, ev.b).n, BlocksOf(ev.len, ev.b).err = "nil">> THEN "blocks-depend-on-schedule"
     ELSE "ok"
 Drift(ev) ==
   IF ev.res # "ok" THEN "ok"
